@@ -1,7 +1,7 @@
 #!/bin/bash
 # verify_seed.sh <worktree> <seed_dir> : confirm a seeded change (suite green with it, demo red with it, demo green without it)
 WT=$1; SD=$2; CR=${3:-cgt-core}
-export CARGO_TARGET_DIR=$WT/target CARGO_NET_OFFLINE=true
+export CARGO_TARGET_DIR=$WT/target CARGO_NET_OFFLINE=true TMPDIR=$WT/target/tmp; mkdir -p $TMPDIR   # private TMPDIR: two cgt-cli PDF tests write fixed names into the temp dir and collide across concurrent worktrees
 cd $WT || exit 2
 git checkout -q -- . ; git clean -fdq -e target   # never git stash: the stash is shared by all worktrees of /repo
 DEMO=$(ls $SD/demo/*.rs $SD/*.rs 2>/dev/null | head -1)
